@@ -1436,9 +1436,8 @@ func opcodeLShift(op *ParsedOpcode, t *thread) error {
 	if err != nil {
 		return err
 	}
-	n := num.Int()
 
-	if n < 0 {
+	if num.LessThanInt(0) {
 		return errs.NewError(errs.ErrNumberTooSmall, "n less than 0")
 	}
 
@@ -1447,13 +1446,7 @@ func opcodeLShift(op *ParsedOpcode, t *thread) error {
 		return err
 	}
 
-	l := len(x)
-	for i := 0; i < l-1; i++ {
-		x[i] = x[i]<<n | x[i+1]>>(8-n)
-	}
-	x[l-1] <<= n
-
-	t.dstack.PushByteArray(x)
+	t.dstack.PushByteArray(shiftBytes(x, num, true))
 	return nil
 }
 
@@ -1462,9 +1455,8 @@ func opcodeRShift(op *ParsedOpcode, t *thread) error {
 	if err != nil {
 		return err
 	}
-	n := num.Int()
 
-	if n < 0 {
+	if num.LessThanInt(0) {
 		return errs.NewError(errs.ErrNumberTooSmall, "n less than 0")
 	}
 
@@ -1473,14 +1465,38 @@ func opcodeRShift(op *ParsedOpcode, t *thread) error {
 		return err
 	}
 
-	l := len(x)
-	for i := l - 1; i > 0; i-- {
-		x[i] = x[i]>>n | x[i-1]<<(8-n)
-	}
-	x[0] >>= n
-
-	t.dstack.PushByteArray(x)
+	t.dstack.PushByteArray(shiftBytes(x, num, false))
 	return nil
+}
+
+// shiftBytes returns a new byte array holding x, taken as a big-endian bit string,
+// shifted left or right by n bits (n >= 0). The result has the length of x; bits
+// shifted out are lost and a shift by 8*len(x) or more gives all zeroes.
+func shiftBytes(x []byte, n *scriptNumber, left bool) []byte {
+	out := make([]byte, len(x))
+	if len(x) == 0 || n.GreaterThanInt(int64(len(x))*8-1) {
+		return out
+	}
+
+	bits := n.Int()
+	byteShift, bitShift := bits/8, uint(bits%8)
+	for i := range out {
+		if left {
+			if j := i + byteShift; j < len(x) {
+				out[i] = x[j] << bitShift
+				if j+1 < len(x) {
+					out[i] |= x[j+1] >> (8 - bitShift)
+				}
+			}
+		} else if j := i - byteShift; j >= 0 {
+			out[i] = x[j] >> bitShift
+			if j-1 >= 0 {
+				out[i] |= x[j-1] << (8 - bitShift)
+			}
+		}
+	}
+
+	return out
 }
 
 // opcodeBoolAnd treats the top two items on the data stack as integers.  When
